@@ -1,65 +1,129 @@
 import NixModel.Lemmas.C13Supplied
+import NixModel.Lemmas.C13File
 import NixModel.Pure.TreeIdsRef
 
 /-!
-# C13 — referring scans on id texts = referring scans on keys, when ids never repeat
+# C13 — referring scans on id texts = referring scans on keys, when the ids met do not repeat
 -/
 
 namespace Nix.Tree.Ids
 open Nix.Tree Nix.Tree.Shape
 
-/-- ids never repeat (uuid4 freshness + the caller's ids pairwise different): different entities, alive or deleted,
-different texts -/
-def TextsInj (texts : Nat → String) : Prop := ∀ a b, texts a = texts b → a = b
+/-- the sections the metadata links stored in the file point to -/
+def mdTargets (f : File) : List Nat :=
+  f.blocks.flatMap fun b =>
+    b.md.toList ++ b.holders.flatMap (fun h => h.md.toList) ++ (nodesL b.sources).flatMap (fun s => s.md.toList)
 
-theorem mdMatchK_eq {texts : Nat → String} (inj : TextsInj texts) (f : File) (kb : KeyBy) (md : Option Nat) (k : Nat) :
+/-- different entities among `ks`, different id texts (uuid4 freshness + the caller's ids pairwise different) -/
+def TextsInjOn (texts : Nat → String) (ks : List Nat) : Prop := ∀ a ∈ ks, ∀ b ∈ ks, texts a = texts b → a = b
+
+theorem mdMatchK_eq {texts : Nat → String} {ks : List Nat} (inj : TextsInjOn texts ks) (f : File) (kb : KeyBy)
+    {md : Option Nat} (hm : ∀ t, md = some t → t ∈ ks) {k : Nat} (hk : k ∈ ks) :
     mdMatchK texts f kb md k = mdMatch f kb md k := by
   cases kb with
   | name => rfl
   | id =>
     cases md with
     | none => rfl
-    | some t => exact beq_texts (inj t k)
+    | some t => exact beq_texts (inj t (hm t rfl) k hk)
   | obj =>
     cases md with
     | none => rfl
-    | some t => exact beq_texts (inj t k)
+    | some t => exact beq_texts (inj t (hm t rfl) k hk)
 
-theorem refScanT_eq {texts : Nat → String} (inj : TextsInj texts) (f : File) (sc : Scan) (k : Nat) :
-    refScanT texts f sc k = refScan f sc k := by
+theorem flatMap_congr' {α β : Type} {l : List α} {g h : α → List β} (e : ∀ a ∈ l, g a = h a) :
+    l.flatMap g = l.flatMap h := by
+  induction l with
+  | nil => rfl
+  | cons x xs ih =>
+    simp only [List.flatMap_cons, e x (List.mem_cons_self ..), ih (fun a ha => e a (List.mem_cons_of_mem _ ha))]
+
+theorem filter_congr' {α : Type} {l : List α} {p q : α → Bool} (e : ∀ a ∈ l, p a = q a) :
+    l.filter p = l.filter q := by
+  induction l with
+  | nil => rfl
+  | cons x xs ih =>
+    simp only [List.filter_cons, e x (List.mem_cons_self ..), ih (fun a ha => e a (List.mem_cons_of_mem _ ha))]
+
+theorem md_block_mem {f : File} {b : Block} (hb : b ∈ f.blocks) {t : Nat} (h : b.md = some t) : t ∈ mdTargets f :=
+  List.mem_flatMap.mpr ⟨b, hb, by simp [h]⟩
+
+theorem md_holder_mem {f : File} {b : Block} (hb : b ∈ f.blocks) {x : Holder} (hx : x ∈ b.holders) {t : Nat}
+    (h : x.md = some t) : t ∈ mdTargets f :=
+  List.mem_flatMap.mpr ⟨b, hb, by
+    simp only [List.mem_append, List.mem_flatMap]
+    exact .inl (.inr ⟨x, hx, by simp [h]⟩)⟩
+
+theorem md_source_mem {f : File} {b : Block} (hb : b ∈ f.blocks) {x : Node} (hx : x ∈ nodesL b.sources) {t : Nat}
+    (h : x.md = some t) : t ∈ mdTargets f :=
+  List.mem_flatMap.mpr ⟨b, hb, by
+    simp only [List.mem_append, List.mem_flatMap]
+    exact .inr ⟨x, hx, by simp [h]⟩⟩
+
+theorem find_all_subset {ms : List Node} {x : Node} (h : x ∈ findFrom (.top ms) (fun _ => true) none) :
+    x ∈ nodesL ms := by
+  rw [findFrom_none, findFrom_some] at h
+  exact levels_subset _ _ (List.mem_filter.mp h).1
+
+theorem refScanT_eq {texts : Nat → String} (f : File) (k : Nat) (inj : TextsInjOn texts (k :: mdTargets f))
+    (sc : Scan) : refScanT texts f sc k = refScan f sc k := by
+  have hk : k ∈ k :: mdTargets f := List.mem_cons_self ..
+  have tl : ∀ {t}, t ∈ mdTargets f → t ∈ k :: mdTargets f := fun h => List.mem_cons_of_mem _ h
   obtain ⟨scope, kb⟩ := sc
-  cases scope <;> simp only [refScanT, refScan, mdMatchK_eq inj]
+  cases scope with
+  | blocks =>
+    simp only [refScanT, refScan]
+    rw [filter_congr' fun b hb => mdMatchK_eq inj f kb (fun t h => tl (md_block_mem hb h)) hk]
+  | holders kind =>
+    simp only [refScanT, refScan]
+    apply flatMap_congr'
+    intro b hb
+    rw [filter_congr' (l := holdersOf b kind) fun x hx => mdMatchK_eq inj f kb
+      (fun t h => tl (md_holder_mem hb (List.mem_filter.mp (show x ∈ b.holders.filter _ from hx)).1 h)) hk]
+  | sourcesFind =>
+    simp only [refScanT, refScan]
+    apply flatMap_congr'
+    intro b hb
+    rw [filter_congr' fun x hx => mdMatchK_eq inj f kb
+      (fun t h => tl (md_source_mem hb (find_all_subset hx) h)) hk]
+  | sourcesTop =>
+    simp only [refScanT, refScan]
+    apply flatMap_congr'
+    intro b hb
+    rw [filter_congr' fun x hx => mdMatchK_eq inj f kb
+      (fun t h => tl (md_source_mem hb (mem_nodesL_roots hx) h)) hk]
 
-theorem refListT_eq {texts : Nat → String} (inj : TextsInj texts) (tbl : List (String × Scan)) (f : File)
-    (nm : String) (k : Nat) : refListT texts tbl f nm k = refList tbl f nm k := by
+theorem refListT_eq {texts : Nat → String} (f : File) (k : Nat) (inj : TextsInjOn texts (k :: mdTargets f))
+    (tbl : List (String × Scan)) (nm : String) : refListT texts tbl f nm k = refList tbl f nm k := by
   unfold refListT refList
   cases tbl.lookup nm with
   | none => rfl
-  | some sc => simp only [refScanT_eq inj]
+  | some sc => simp only [refScanT_eq f k inj]
 
-theorem refObjectsT_eq {texts : Nat → String} (inj : TextsInj texts) (tbl : List (String × Scan)) (f : File)
-    (k : Nat) : ∀ order : List String, refObjectsT texts tbl order f k = refObjectsG tbl order f k
+theorem refObjectsT_eq {texts : Nat → String} (f : File) (k : Nat) (inj : TextsInjOn texts (k :: mdTargets f))
+    (tbl : List (String × Scan)) : ∀ order : List String, refObjectsT texts tbl order f k = refObjectsG tbl order f k
   | [] => rfl
   | nm :: rest => by
-    rw [refObjectsT, refObjectsG, refListT_eq inj, refObjectsT_eq inj tbl f k rest]
+    rw [refObjectsT, refObjectsG, refListT_eq f k inj, refObjectsT_eq f k inj tbl rest]
     cases refList tbl f nm k <;> cases refObjectsG tbl rest f k <;> rfl
 
-/-- the texts of a history never repeat when the caller's ids are fit (`SuppliedOK`, the part about ids) -/
-theorem textsInj_of_supplied {given : List (Nat × String)} {gen : Nat → String}
-    (genInj : ∀ a b, gen a = gen b → a = b) (givenNodup : (given.map Prod.snd).Nodup)
-    (sep : ∀ k t, (k, t) ∈ given → ∀ a, t ≠ gen a) : TextsInj (textsOf given gen) := by
+/-- the texts of a history do not repeat among `ks` when the caller's ids are fit (the part of `SuppliedOK` about
+ids, for the keys `ks`) -/
+theorem textsInjOn_of_supplied {given : List (Nat × String)} {gen : Nat → String} {ks : List Nat}
+    (genInj : ∀ a ∈ ks, ∀ b ∈ ks, gen a = gen b → a = b) (givenNodup : (given.map Prod.snd).Nodup)
+    (sep : ∀ k t, (k, t) ∈ given → ∀ a ∈ ks, t ≠ gen a) : TextsInjOn (textsOf given gen) ks := by
   have cases_text : ∀ a, (∃ t, (a, t) ∈ given ∧ textsOf given gen a = t) ∨ textsOf given gen a = gen a := by
     intro a
     unfold textsOf
     cases hl : given.lookup a with
     | none => exact .inr rfl
     | some t => exact .inl ⟨t, lookup_mem hl, rfl⟩
-  intro a b hab
+  intro a ha b hb hab
   rcases cases_text a with ⟨ta, hma, hta⟩ | hta <;> rcases cases_text b with ⟨tb, hmb, htb⟩ | htb
   · have e : ta = tb := hta.symm.trans (hab.trans htb)
     exact snd_inj_of_nodup givenNodup hma (e ▸ hmb)
-  · exact absurd (hta.symm.trans (hab.trans htb)) (sep _ _ hma b)
-  · exact absurd (htb.symm.trans (hab.symm.trans hta)) (sep _ _ hmb a)
-  · exact genInj a b (hta.symm.trans (hab.trans htb))
+  · exact absurd (hta.symm.trans (hab.trans htb)) (sep _ _ hma b hb)
+  · exact absurd (htb.symm.trans (hab.symm.trans hta)) (sep _ _ hmb a ha)
+  · exact genInj a ha b hb (hta.symm.trans (hab.trans htb))
 
 end Nix.Tree.Ids
